@@ -124,6 +124,15 @@ CHECKS = {
             'registries; Glommer().glom equals glom on a pool incl. Assign/Delete.',
             'Among incomparable candidates (diamonds, duck types) any minimal one is admissible; module-level histories are limited to depth 2.',
             '3/C13'),
+    'C04': ('fault_enumeration',
+            'exhaustive single-fault (and absorbed-first / escaping-second double-fault) enumeration: every fault site of every skeleton x exception catalogue x kwargs matrix executed on the real glom()',
+            '33 skeletons (one per place user code is entered: callables, T calls, Call/Invoke, Coalesce predicate/factory, Check, Match, Fold/Merge, Group, Iter, Assign factory, target '
+            'dunders, registered handlers, nested to depth 3); a counting run learns the fault sites; one execution per (site x 43 exception shapes incl. keyword-only / arity-changing / '
+            'message-prefixing constructors, user GlomError subclasses, glom\'s own classes, BaseExceptions x 8 settings of default / skip_exc / glom_debug). Checked: class and args of the '
+            'escaping exception vs the injected object, GlomError-ness when rebuildable, identity under glom_debug, documented conversions, default object identity and selectivity; '
+            'second bound: first fault absorbed by Coalesce / Or / Match default / Switch, second escapes; table of 20 glom-detected failures.',
+            'Classification of converting vs pass-through sites as listed in the check; attributes beyond args are not asserted.',
+            '3/C04'),
 }
 
 NOT_YET = {}
